@@ -628,7 +628,7 @@ def sgr_model(groups, start, bit):
             elif c == 0:
                 nxt.add((None, None, None, 0))
             elif c == 4 and len(g) == 2:
-                st = sgr.UNDERLINE_STYLE[g[1]]
+                st = sgr.UNDERLINE_STYLE.get(g[1], "UNDERLINE")        # an unknown style number leaves the plain underline that `4` set
                 e2 = eff | bit["UNDERLINE"]
                 if st != "UNDERLINE":
                     e2 &= ~bit["UNDERLINE"]
@@ -667,8 +667,10 @@ def rule_model(facts, rep, tier="quick"):
     import abseval
     b = facts.body("anstream", FN + "csi_dispatch")
     bit = {n_: v for n_, v, _ in ac.effect_consts(facts)}
-    singles = [[c] for c in (0, 1, 2, 3, 4, 5, 7, 8, 9, 10, 21, 22, 24, 27, 30, 31, 37, 39, 40, 47, 49, 59, 60, 90, 97, 100, 107, 108, 255)]
-    units = [[g] for g in singles] + [[[4, n]] for n in range(6)]
+    # (codes above 255 are unknown codes like any other: a value narrowed to a byte before it is matched would alias 256 to 0, 257 to 1 ..)
+    singles = [[c] for c in (0, 1, 2, 3, 4, 5, 7, 8, 9, 10, 21, 22, 24, 27, 30, 31, 37, 39, 40, 47, 49, 59, 60, 90, 97, 100, 107, 108, 255,
+                             256, 257, 260, 287, 295, 305, 512, 1000, 65535)]
+    units = [[g] for g in singles] + [[[4, n]] for n in range(6)] + [[[4, 7]], [[4, 256]], [[4, 258]]]
     for code in (38, 48, 58):
         units += [[[code], [5], [9]], [[code, 5, 200]], [[code], [2], [1], [2], [3]], [[code, 2, 250, 128, 7]]]
     starts = [(None, None, None, 0),
